@@ -206,6 +206,8 @@ def tool():
             self.kind = kind
 
         def override_write(self, string):
+            # stream.Std prints to a UTF-8 stdout/stderr: text that cannot be encoded fails there (lone surrogates)
+            string.encode('utf-8')
             self.rec.add(self.kind, string)
     _tool['RecStream'] = RecStream
     return _tool
